@@ -59,6 +59,15 @@ func VerifC12Reuse(tries, calls, prevMode int) {
 			verifAssume(at < k.budget)
 			ctx.endAt(k.start+at, verifCtxErrKind(1+j%3))
 		}
+		if !last && prevMode == 3 {
+			// a context WITH a deadline (reported by Deadline()) that ends by it
+			at = int64(verifU64("ctx.deadline"))
+			verifAssume(at > 0)
+			verifAssume(at < k.budget)
+			verifAssume(k.start+at <= 1<<40)
+			ctx.deadline = k.start + at
+			ctx.endAt(k.start+at, context.DeadlineExceeded)
+		}
 		if !last && prevMode == 2 {
 			at = int64(verifU64("offer.at"))
 			verifAssume(at >= 0)
